@@ -29,7 +29,7 @@ def is_open(model: Model, op) -> bool:
             l = model.L[op[1]]
             return l["cls"] not in model_two_ended() or len(l["verts"]) != 2
         if k == "l_add_vertex":
-            return op[2] in model.L[op[1]]["verts"]
+            return op[2] is None or op[2] in model.L[op[1]]["verts"]
         if k == "v_rm_link":
             return model.L[op[2]]["verts"].count(op[1]) > 1
         if k == "l_unlink_from":
@@ -293,6 +293,9 @@ def enumerate_ops(pool, profile, constructors=True, fresh="X"):
             for x in vs + [None]:
                 out.append(["setv1", e, x])
                 out.append(["setv2", e, x])
+        for l in ls:
+            out.append(["l_unlink_from", l, None])
+            out.append(["l_add_vertex", l, None])
         for v in vs:
             for l in ls:
                 out.append(["v_add_link", v, l])
